@@ -259,6 +259,54 @@ def run(tier, seed):
                                         {"kind": "readback", "backend": ext, "what": str(bad[1]).split(" ")[0][:12]},
                                         {"oracle": "readback", "stimulus": stim, "burn_in": bad[0], "expected": bad[1], "observed": bad[2]}))
 
+        # two writers at once -----------------------------------------------------------------------
+        sw2 = Suite("C10.two_writers", "two Samples writers alive at the same time (HDF5 and/or NPY, other row counts allowed), columns appended alternately in random order, "
+                    "flushes in between, closed in either order: each file holds exactly the columns appended to its own writer, in order; non-trivial = all")
+        from hmclab.Samples import Samples as _S2
+        for ci in range(60 if thorough else 16):
+            exts = [rnd.choice(["h5", "npy"]), rnd.choice(["h5", "npy"])]
+            hs = [rnd.choice([2, 3]), rnd.choice([2, 3, 4])]
+            fns = [os.path.join(tmp, f"tw{ci}_{j}.{exts[j]}") for j in range(2)]
+            mine = [[], []]
+            order = [rnd.randrange(2) for _ in range(rnd.choice([3, 8, 20, 45]))]
+            stim = {"backends": exts, "rows": hs, "order": "".join(map(str, order))}
+            sw2.case(stim, nontrivial=True, sample=stim if len(sw2.samples) < 2 else None)
+            err = None
+            try:
+                with quiet():
+                    ws = [_S2(fns[j], mode="w", overwrite=True) for j in range(2)]
+                    for k, j in enumerate(order):
+                        col = np.array([[float(100 * j + k) + 0.25 * r] for r in range(hs[j])])
+                        ws[j].append(col)
+                        mine[j].append(col.ravel())
+                        if rnd.random() < 0.15:
+                            ws[rnd.randrange(2)].flush_buffer()
+                    for j in (rnd.sample([0, 1], 2)):
+                        ws[j].close()
+                got = []
+                for j in range(2):
+                    if not mine[j]:
+                        got.append(None)
+                        continue
+                    with quiet():
+                        r_ = _S2(fns[j])
+                        got.append(np.array(r_.numpy, dtype=float))
+                        r_.close()
+            except Exception as e:
+                err = repr(e)
+            problems = []
+            if err:
+                problems.append(f"raised {err[:160]}")
+            else:
+                for j in range(2):
+                    if mine[j]:
+                        want = np.array(mine[j]).T
+                        if got[j].shape != want.shape or not np.array_equal(got[j], want):
+                            problems.append(f"writer {j} ({exts[j]}): the file holds {got[j].shape[1]} columns {got[j][0, :6].tolist()}..., appended to it were {want.shape[1]} columns {want[0, :6].tolist()}...")
+                            break
+            if problems:
+                sw2.disagree(stim, "each file = its own columns", problems[0], "two writers")
+                findings.append(Finding("C10", "two writers alive at once: " + problems[0][:300], {"kind": "two-writers"}, {"oracle": "two-writers", "stimulus": stim}))
         # combine_samples ----------------------------------------------------------------------
         sc = Suite("C10.combine", "combine_samples on 1-4 files (both back ends, with burn-ins, with NaN-containing columns) vs model concatenation; "
                    "non-trivial = >= 2 inputs and >= 1 NaN column")
@@ -305,7 +353,7 @@ def run(tier, seed):
                 sc.disagree(stim, expect.shape, np.shape(out), "combine_samples differs from model")
                 findings.append(Finding("C10", "combine_samples is not the concatenation of its inputs without NaN-containing columns",
                                         {"kind": "combine"}, {"oracle": "combine", "stimulus": stim}))
-    return [st, sc], findings
+    return [st, sw2, sc], findings
 
 
 def search(tier, seed, broken):
